@@ -85,7 +85,12 @@ fn apply(p: &Package, op: &Value) -> Result<Package, String> {
     let mut q = p.clone();
     let r = guarded(|| -> Result<(), rpm::Error> {
         match op["op"].as_str().unwrap() {
-            "sign" => gen_::sign_pkg(&mut q, op["key"].as_str().unwrap(), 1_600_000_000u32)?,
+            // (the signing time is the caller's: the ECDSA key signs with a time a day ahead of this machine's clock)
+            "sign" => {
+                let key = op["key"].as_str().unwrap();
+                let t = if key == "ecdsa" { (std::time::SystemTime::now().duration_since(std::time::UNIX_EPOCH).map(|d| d.as_secs()).unwrap_or(1_700_000_000) + 86_400) as u32 } else { 1_600_000_000u32 };
+                gen_::sign_pkg(&mut q, key, t)?
+            }
             "clear" => q.clear_signatures()?,
             _ => {
                 // written the way a caller writing into a pipe would: the sink takes a few bytes of each request
